@@ -1646,13 +1646,11 @@ class Model_from_InPulse(Model):
         if mode_mapping is not None:
             pin_mapping = {}
             for pin in pin_dic:
-                try:
-                    name, mode = pin.split("_")
-                except ValueError:
-                    name, mode = pin, ""
+                name = pin.basename
+                mode = "" if pin.mode_name is None else pin.mode_name
                 mode = mode_mapping.get(mode)
                 if mode is not None:
-                    pin_mapping[pin] = name if mode == "" else f"{name}_{mode}"
+                    pin_mapping[pin] = Pin(name) if mode == "" else Pin(name, mode)
 
             pin_dic = {target: i for i, (pin, target) in enumerate(pin_mapping.items())}
 
